@@ -74,6 +74,18 @@ pub fn stop_points(spec: &RootSpec, d: u8, warm: bool, only_n: Option<u64>, acc:
                 }
             }
         }
+        // "unwinds without expanding further nodes": the node-entry poll is the hook's only view of expansion, so a
+        // search that walks on without polling (an iteration whose nodes are not polled) would escape the count above.
+        // What it cannot hide: an iteration reported as completed after the stop was in, and - when the stop was in
+        // before the search started on an empty table - anything cached at all.
+        let lines_after_stop = if n == u64::MAX { info_depths(&run.transcript).len() } else { run.iter_marks.iter().filter(|&&m| m > n).count() };
+        // (a cached root entry or a single legal reply is reported without a node being expanded: not judged)
+        if (run.stopped || n == u64::MAX) && lines_after_stop > 0 && !warm && legal.len() >= 2 {
+            acc.violation(format!("c07-iteration-after-stop|{}|{}", key_class, n), format!("the stop was in at poll {} (18446744073709551615 = before the search started), yet {} iteration(s) were completed and reported afterwards [{} depth {}]", n, lines_after_stop, spec.text(), d), replay_json(spec, d, n, warm));
+        }
+        if n == u64::MAX && !warm && !t.is_empty() {
+            acc.violation(format!("c07-cached-after-stop|{}", key_class), format!("the stop was in before the search started, yet {} table entr(y/ies) were written [{} depth {}]", t.len(), spec.text(), d), replay_json(spec, d, n, warm));
+        }
         if run.polls_after_stop != 0 {
             acc.violation(format!("c07-late|{}|{}", key_class, n), format!("after the stop at poll {} the search entered {} further node(s) [{} depth {}]", n, run.polls_after_stop, spec.text(), d), replay_json(spec, d, n, warm));
         }
